@@ -724,9 +724,10 @@ struct Script {
     BA clientFirst, serverFirst, clientFinal, digestResp;
     bool proved = false;       // the server's proof of knowledge of the password reached the client and was accepted
     int payloadIdx = 0;
-    Script(Mgr &mg, Rng &r) : m(mg)
+    Script(Mgr &mg, Rng &r, const BA *fixedSalt = nullptr, int fixedIters = 0) : m(mg)
     {
         snonce = randNonce(r, 1, 12); salt = randBytes(r, 1, 16); iters = 1 + int(r.below(3));
+        if (fixedSalt) { salt = *fixedSalt; iters = fixedIters; }
         realm = r.coin() ? BA() : randText(r, 1, 6, ""); while (realm.endsWith('\\')) realm.chop(1);
         dnonce = randNonce(r, 1, 12); while (dnonce.endsWith('\\')) dnonce += 'n';
     }
@@ -827,6 +828,55 @@ static void runMgrSequence(const MgrCfg &cfg, const std::vector<S> &syms, Rng &r
                     oracleFail(cfg.sasl2 ? "C06:digest-success-without-rspauth-sasl2" : "C06:digest-success-without-rspauth-sasl", m.history);
                 else oraclePass()++;
             }
+        }
+    }
+}
+
+static ClientCfg randCfg(Rng &rng, const S &mech);
+
+// an honest SCRAM server holding the CONFIGURED password, played through a manager with a given (salt, count): the reference
+// server must accept the client's proof, the client must accept its signature, the login must be reported successful
+static void mgrHonestScram(const MgrCfg &cfg, const BA &salt, int iters, Rng &rng)
+{
+    Mgr m(cfg);
+    Script sc(m, rng, &salt, iters);
+    m.start();
+    sc.watch();
+    sc.play("C1");
+    if (!sc.serverFinal()) oracleFail("C06:scram-proof-rejected-by-reference-server", m.history + " | manager level, salt=" + hx(salt) + " i=" + std::to_string(iters));
+    else oraclePass()++;
+    sc.play("C2");
+    sc.play("S");
+    if (m.result != "success" || !sc.proved) oracleFail("C06:scram-honest-server-final-refused", m.history + " | manager level, result " + m.result);
+    else oraclePass()++;
+}
+
+// several logins in ONE process over a small pool of (salt, count) pairs with different configured passwords (mistyped then
+// corrected, password changed with the salt kept, two accounts sharing a salt): every login is judged by the reference server
+// holding THAT login's password — the client must be a function of its arguments, nothing may carry over between logins
+static void scramSharedSalt(const Alg &alg, Rng &rng)
+{
+    struct Pool { BA salt; int iters; };
+    const Pool pool[] = { { randBytes(rng, 4, 16), 1 + int(rng.below(8)) }, { randBytes(rng, 4, 16), 1024 } };
+    std::vector<BA> passwords = { randText(rng, 1, 10, ""), randText(rng, 1, 10, ""), BA("pencil") };
+    passwords.push_back(passwords[0]);            // and back to the first one
+    passwords.push_back(passwords[0] + "x");
+    const BA user = randText(rng, 1, 8);
+    for (auto &pl : pool) {
+        for (size_t i = 0; i < passwords.size(); i++) {
+            ScramCase k;
+            k.cfg = randCfg(rng, alg.scram);
+            if (i % 2 == 0) k.cfg.user = user;    // same account / another account
+            k.cfg.pass = passwords[i];
+            k.snonce = randNonce(rng, 1, 16);
+            k.salt = pl.salt; k.iters = pl.iters;
+            scramHonest(k, true);
+            for (int sasl2 = 0; sasl2 < 2; sasl2++) {
+                MgrCfg mk { sasl2 == 1, k.cfg };
+                mk.c.cnonce = randNonce(rng, 1, 16);
+                mgrHonestScram(mk, pl.salt, pl.iters, rng);
+            }
+            stat("scram_shared_salt_logins", 3);
         }
     }
 }
@@ -1080,6 +1130,9 @@ int main(int argc, char **argv)
         auto r = c.respond(BA());
         if (!r || r->toBase64() != "bG5qAKq/BuI7mZiZ6fByiqP1ARkYUI/WyFSh7tsYik1uUiB5") oracleFail("C06:ht-not-xep0484", c.history); else oraclePass()++;
     }
+
+    // ---------------- SCRAM: several logins per process sharing (mechanism, salt, count) with different passwords (seeded change C06_d2)
+    for (auto &alg : ALGS) if (alg.scram) for (int i = 0; i < (g_thorough ? 6 : 2); i++) scramSharedSalt(alg, rng);
 
     // ---------------- FAST tokens: corpus (seeded change C06_c1: request for X, stored token for Y, rotation, next login), then sequences
     {
